@@ -14,8 +14,14 @@ from common import chist, clist, cq, cz, cnat, qv
 import gens
 import pools
 
-BIN = {"add": ("Qcplus", operator.add), "sub": ("Qcminus", operator.sub), "mul": ("Qcmult", operator.mul)}
-UN = {"neg": ("Qcopp", operator.neg), "abs": ("Vabs", abs)}
+# name -> (Coq operator on values, function building the roller, function on values)
+BIN = {"add": ("Qcplus", operator.add, operator.add), "sub": ("Qcminus", operator.sub, operator.sub),
+       "mul": ("Qcmult", operator.mul, operator.mul),
+       "lt": ("(fun x y => ofb (negb (Vleb y x)))", lambda a, b: a.lt(b), lambda x, y: Fraction(int(x < y))),
+       "ge": ("(fun x y => ofb (Vleb y x))", lambda a, b: a.ge(b), lambda x, y: Fraction(int(x >= y))),
+       "eq": ("(fun x y => ofb (Veqb x y))", lambda a, b: a.eq(b), lambda x, y: Fraction(int(x == y)))}
+UN = {"neg": ("Qcopp", operator.neg, operator.neg), "abs": ("Vabs", abs, abs),
+      "is_even": ("(fun x => ofb (p_even x))", lambda a: a.is_even(), lambda x: Fraction(int(x % 2 == 0)))}
 PRED = {"even": ("p_even", lambda v: v % 2 == 0), "odd": ("p_odd", lambda v: v % 2 == 1),
         "gt2": ("(p_gt (qc 2 1))", lambda v: v > 2)}
 
@@ -237,10 +243,10 @@ def enum(t):
         parts = _seq([enum(t[2])] * t[1])
         return _bind(parts, lambda rs: {tuple(v for r in rs for v in _live(r)): Fraction(1)})
     if k == "bin":
-        f = BIN[t[1]][1]
+        f = BIN[t[1]][2]
         return _bind(_seq([enum(t[2]), enum(t[3])]), lambda rs: {(f(_summed(rs[0]), _summed(rs[1])),): Fraction(1)})
     if k == "un":
-        f = UN[t[1]][1]
+        f = UN[t[1]][2]
         return _bind(enum(t[2]), lambda r: {(f(_summed(r)),): Fraction(1)})
     if k == "subst":
         tbl = {Fraction(*v): e for v, e in t[1]}
